@@ -195,4 +195,14 @@ def chainWalk (E : Env) (folder : Str) (ms : List Member) : Except C18.Err (List
 everything. -/
 def inFolder (d n : Str) : Bool := d.isEmpty || (d ++ ['/']).isPrefixOf n
 
+/-- What a walk should list: the stored files (dict over folded names) whose folded name lies
+inside the folded, normalised folder `D`; each reported under its stored name. -/
+def walkSpec (fold : Char → List Char) (F : FileSet) (D : Str) : List (Str × FEnt) :=
+  ((dictOf (F.map fun e => (foldStr fold e.name, e))).filter fun kv => inFolder D kv.1).map
+    fun kv => (kv.2.name, kv.2)
+
+/-- `FileSystemChain.add_sys(sys, prefix, priority=...)`. -/
+def addSys (ms : List Member) (m : Member) (priority : Bool) : List Member :=
+  if priority then m :: ms else ms ++ [m]
+
 end C19
